@@ -39,7 +39,17 @@ package vuego
 //@ spec func rawParent(ctx VueContext) bool { curTag(ctx) == "script" || curTag(ctx) == "style" }
 //@ spec func spaces(n int) string
 //@ spec func trimSpace(s string) string
-//@ spec func noLtFrom(s string, from int) bool { !contains(s[from:], "<") }
+//@ axiom escIdentity(s string)
+//@   ensures !containsAny(s, "<>&\"'") ==> Esc(s) == s
+//@ axiom escNoLt(s string)
+//@   ensures !contains(Esc(s), "<") && !contains(Esc(s), ">") && !contains(Esc(s), "\"") && !contains(Esc(s), "'")
+
+//@ spec func textOut(data string, indent int) string { trimSpace(data) == "" ? "" : spaces(indent) + Esc(data) }
+//@ axiom spacesNoLt(n int)
+//@   ensures !contains(spaces(n), "<") && !contains(spaces(n), ">")
+//@ lemma textNoLt(data string, indent int)
+//@   use escNoLt(data), spacesNoLt(indent)
+//@   ensures C01.text.nolt: !contains(textOut(data, indent), "<") && !contains(textOut(data, indent), ">")
 
 //@ func (ctx VueContext) CurrentTag() (r)
 //@   pure
@@ -54,21 +64,21 @@ package vuego
 //@   pure
 //@   trusted
 //@   ensures r == spaces(indent)
-//@   ensures !contains(r, "<")
+//@   ensures !contains(r, "<") && !contains(r, ">")
 
 //@ func shouldEscapeTextNode(data) (r)
 //@   pure
-//@   ensures C01.text.sniff: !r ==> !contains(data, "<") && !contains(data, ">")
+//@   ensures C01.text.sniff: r == containsAny(data, "<>&\"'")
 
 //@ func renderNodeWithContext(ctx, w, node, indent) (err)
+//@   use escIdentity(node.Data)
 //@   modifies out(w), failed(w)
 //@   ensures C12.prefix: hasPrefix(out(w), old(out(w)))
 //@   ensures C12.reported: failed(w) && !old(failed(w)) ==> err != nil
 //@   ensures C12.complete: err == nil ==> failed(w) == old(failed(w))
-//@   ensures C01.text.nolt: node.Type == html.TextNode && !rawParent(ctx) ==> noLtFrom(out(w), len(old(out(w))))
-//@   ensures C02.text.exact: node.Type == html.TextNode && !rawParent(ctx) && err == nil ==>
-//@     out(w) == old(out(w)) + (trimSpace(node.Data) == "" ? "" : spaces(indent) + Esc(node.Data))
+//@   ensures C01+C02.text.exact: node.Type == html.TextNode && !rawParent(ctx) && err == nil ==>
+//@     out(w) == old(out(w)) + textOut(node.Data, indent)
 //@   ensures C02.doctype: node.Type == html.DoctypeNode && err == nil ==> out(w) == old(out(w)) + "<!DOCTYPE " + node.Data + ">\n"
-//@   loop 2 invariant C12.loop.prefix: hasPrefix(out(w), old(out(w))) && (failed(w) ==> old(failed(w)))
-//@   loop 3 invariant C12.loop.prefix: hasPrefix(out(w), old(out(w))) && (failed(w) ==> old(failed(w)))
-//@   loop 4 invariant C12.loop.prefix: hasPrefix(out(w), old(out(w))) && (failed(w) ==> old(failed(w)))
+//@   loop 2 invariant C12.loop.prefix: hasPrefix(out(w), old(out(w))) && failed(w) == old(failed(w))
+//@   loop 3 invariant C12.loop.prefix: hasPrefix(out(w), old(out(w))) && failed(w) == old(failed(w))
+//@   loop 4 invariant C12.loop.prefix: hasPrefix(out(w), old(out(w))) && failed(w) == old(failed(w))
